@@ -68,6 +68,8 @@ def run(ctx):  # noqa: C901
             okd = "dual_channel" in repr(v) and "apply_channel" in repr(v)
             ctx.ob("R-PRED", cb, "CP shortcut applies the dual map to the identity", okd, "apply_channel(eye, dual_channel(phi))" if okd else "operand changed", rn)
     sk = Skeleton(m, cb)
+    from ..sdp import r_hermitian_vars
+    r_hermitian_vars(ctx, cb, sk)
     if sk.probs:
         p = sk.probs[0]
         ctx.ob("R-SDP", cb, "objective sense == min", p.sense == "min", p.sense or "?")
@@ -117,6 +119,7 @@ def run(ctx):  # noqa: C901
     okq = any(t == ("cmp", "!=", *sorted([("n", "choi_dim_x"), ("n", "choi_dim_y")], key=repr)) for t in gs)
     ctx.ob("R-GUARD", cf, "equal shapes and square", oke and okq, "both raising guards" if oke and okq else "a shape guard is missing")
     sk = Skeleton(m, cf)
+    r_hermitian_vars(ctx, cf, sk)
     Ni = Normalizer(m, cf, inline=True)
     if sk.probs:
         p = sk.probs[0]
@@ -173,6 +176,7 @@ def run(ctx):  # noqa: C901
     okl = any(flw.conds(ff) and "builtins.len" in repr(Nf(flw.conds(ff)[-1][0])) and "psi_dims" in repr(Nf(flw.conds(ff)[-1][0])) for _, ff in res.raises)
     ctx.ob("R-GUARD", fs, "tripartite dims required", okl, "len(psi_dims) == 3 enforced" if okl else "guard missing")
     sk = Skeleton(m, fs)
+    r_hermitian_vars(ctx, fs, sk)
     if sk.probs:
         p = sk.probs[0]
         ctx.ob("R-SDP", fs, "objective sense == max", p.sense == "max", p.sense or "?")
